@@ -18,7 +18,10 @@ CONSTANTS
   DevWriteLock = FALSE
   DevRouteFirst = FALSE
   DevCleanupFirst = TRUE
-  DevLegRegistered = FALSE
+  RegLegs = {}
+  DevIdleSweep = FALSE
+  DevFwdNoEof = FALSE
+  SrcKinds = {"direct"}
   DevBufio = FALSE
   AttachKinds = {"local"}
   HoldOn = FALSE
